@@ -19,9 +19,12 @@ REQUIRED_COUNTERS = {"quick": {"nofinite_models_judged": 20, "invalid_option_cas
 NSHARDS = 16
 
 
+STANDINS = __import__("os").path.join(__import__("os").path.dirname(__import__("os").path.dirname(__import__("os").path.abspath(__file__))), "standins")
+
+
 def plan(tier, seed):
     n = 10 if tier == "quick" else 250
-    return [{"name": "s%d" % i, "seed": seed, "shard": i, "n": n} for i in range(NSHARDS)]
+    return [{"name": "s%d" % i, "seed": seed, "shard": i, "n": n, "extra_path": [STANDINS]} for i in range(NSHARDS)]
 
 
 def depends_on_leaf(o):
@@ -198,8 +201,10 @@ def run_shard(spec):
     for i in range(max(1, spec.get("n", 10) // 3)):
         rng = driver.case_rng(spec["seed"], spec["name"] + "/nf", i)
         for kind, prog in nofinite_models(rng):
-            for solver in ("CLARABEL", "SCS") if i % 2 == 0 else ("CLARABEL",):
+            for solver in ("CLARABEL", "SCS", "MOSEK-standin") if i % 2 == 0 else ("CLARABEL", "MOSEK-standin"):
                 cfg = {"wrapper": "cvxpy", "solver": solver, "verbose": rng.choice([0, 1]), "mode": rng.choice(["dual", "primal"])}
+                if solver == "MOSEK-standin":
+                    cfg = {"wrapper": "mosek", "solver": "CLARABEL", "verbose": rng.choice([0, 1]), "mode": rng.choice(["dual", "primal"])}
                 case = driver.run_case(prog, cfg)
                 if case.outcome[0] == "exc":
                     if type(case.outcome[1]).__name__ == "SolverError":
